@@ -98,7 +98,7 @@ def check_all(ctx, F, tag):
     if m_r is None or m_f is None or K is None:
         ctx.missing('C17.O4', 'consts MOD / NORMALIZE_INTERVAL')
     ctx.check(m_r == 65521 and m_f == 65521, 'C17.O4', 'MOD' + tag, 'both moduli are 65521', 'the modulus is not 65521 in both types (%s / %s): digests differ from the definition' % (m_r, m_f), 'src/checksum.rs')
-    ctx.attempt(length_field_width, ctx, F, tag)
+    length_field_width(ctx, F, tag)
     eager(ctx, F, tag, m_r)
     lazy(ctx, F, tag, m_f, K)
 
